@@ -1,10 +1,11 @@
 #!/usr/bin/env python3
 """Development aid (never run by a registered check): merge manually classified failing keys
-into known_findings.json.  usage: mkfindings.py <Cxx> <dump.json>
+into known_findings.json.  usage: mkfindings.py <Cxx> <dump.json> [<dump2.json> ...]  (the union of the dumps:
+keys may differ between tiers, always merge the quick AND the thorough dump)
 Every dumped key must match a rule of props/<cxx>/findings.rules (regex TAB root-cause text),
 otherwise nothing is written: a key is only listed after a human classified its root cause."""
 import json, re, sys
-prop, dump = sys.argv[1], sys.argv[2]
+prop, dumps = sys.argv[1], sys.argv[2:]
 rules = []
 for line in open(f"/verif/props/{prop.lower()}/findings.rules"):
     line = line.rstrip("\n")
@@ -13,7 +14,12 @@ for line in open(f"/verif/props/{prop.lower()}/findings.rules"):
     rules.append((re.compile(rx), what))
 new = []
 bad = []
-for f in (json.load(open(dump))["findings"] or []):
+allf, seen = [], set()
+for dump in dumps:
+    for f in (json.load(open(dump))["findings"] or []):
+        if f["key"] not in seen:
+            seen.add(f["key"]); allf.append(f)
+for f in allf:
     for rx, what in rules:
         if rx.search(f["key"]):
             new.append({"property": prop, "key": f["key"], "status": "open", "what": what})
